@@ -181,3 +181,78 @@ func Harness_C07_p2p_resub_unloaded_prev_grant() {
 	verifAssert(pb.modeGiven == types.ModeCP2P && pb.modeWant == types.ModeCP2P, "peer-modes-untouched")
 	verifReach("end")
 }
+
+// C07 (p2p creation and re-creation through the real initTopicP2P): whatever default access the two users have
+// configured, whatever modes the requester sends along, and whichever of the two subscriptions already exists,
+// both participants' modes - cached and stored - stay within join/read/write/presence/approve and keep approve,
+// the requester can join, and exactly the two users are participants.
+func Harness_C07_p2p_create_modes() {
+	verifNewStore()
+	verifInitGlobals()
+	a, b := types.Uid(1), types.Uid(2)
+	name := a.P2PName(b)
+	st := verifStore
+	for _, u := range []types.Uid{a, b} {
+		// default access as account creation and {set me defacs} leave it: within JRWPA, and either nothing at all
+		// or with approve
+		da := types.DefaultAccess{Auth: (verifMode("defaultAuth") & types.ModeCP2P) | types.ModeApprove, Anon: (verifMode("defaultAnon") & types.ModeCP2P) | types.ModeApprove}
+		if verifNondetBool("authNone") {
+			da.Auth = types.ModeNone
+		}
+		if verifNondetBool("anonNone") {
+			da.Anon = types.ModeNone
+		}
+		st.users[u] = &types.User{State: types.StateOK, Access: da}
+		st.users[u].SetUid(u)
+	}
+	switch verifChoose("existing", 3) {
+	case 1: // the topic exists, only the responder's subscription is there (the requester had left)
+		st.topics[name] = &types.Topic{ObjHeader: types.ObjHeader{Id: name}}
+		st.subs[verifSubKey(name, b)] = &types.Subscription{User: b.String(), Topic: name, ModeWant: types.ModeCP2P, ModeGiven: types.ModeCP2P}
+	case 2: // only the requester's subscription is there (the responder had left)
+		st.topics[name] = &types.Topic{ObjHeader: types.ObjHeader{Id: name}}
+		st.subs[verifSubKey(name, a)] = &types.Subscription{User: a.String(), Topic: name, ModeWant: types.ModeCP2P, ModeGiven: types.ModeCP2P}
+	}
+	lvl := []auth.Level{auth.LevelAuth, auth.LevelAnon, auth.LevelRoot}[verifChoose("level", 3)]
+	sub := &MsgClientSub{Id: "s1", Topic: b.UserId()}
+	if verifNondetBool("withSet") {
+		sub.Set = &MsgSetQuery{}
+		texts := []string{"", "N", "JRWPA", "JRWPASDO", "JP", "RW", "O", "junk"}
+		if verifNondetBool("withMode") {
+			sub.Set.Sub = &MsgSetSub{Mode: texts[verifChoose("wantText", len(texts))]}
+		}
+		if verifNondetBool("withDefacs") {
+			sub.Set.Desc = &MsgSetDesc{DefaultAcs: &MsgDefaultAcsMode{Auth: texts[verifChoose("givenToPeerText", len(texts))]}}
+		}
+	}
+	t := &Topic{name: name, xoriginal: b.UserId(), perUser: map[types.Uid]perUserData{}, sessions: map[*Session]perSessionData{}}
+	sess := verifNewSession("sid-a", a, lvl, 32)
+	sreg := &ClientComMessage{Id: "s1", AsUser: a.UserId(), AuthLvl: int(lvl), Original: b.UserId(), RcptTo: name,
+		Timestamp: types.TimeNow(), sess: sess, init: true, Sub: sub}
+	err := initTopicP2P(t, sreg)
+	verifAssert(err == nil, "p2p-topic-loads")
+	if err != nil {
+		verifReach("end")
+		return
+	}
+	verifAssert(len(t.perUser) == 2, "p2p-has-exactly-two-participants")
+	for _, u := range []types.Uid{a, b} {
+		p, ok := t.perUser[u]
+		verifAssert(ok, "both-users-are-participants")
+		verifAssert(p.modeWant&^types.ModeCP2P == 0 && p.modeGiven&^types.ModeCP2P == 0, "p2p-modes-within-JRWPA")
+		// "no access at all" (a user whose default access refuses strangers) is the one mode without approve
+		verifAssert(p.modeWant.IsApprover() || p.modeWant == types.ModeNone, "p2p-modes-keep-approve")
+		verifAssert(p.modeGiven.IsApprover() || p.modeGiven == types.ModeNone, "p2p-modes-keep-approve")
+		row := st.subs[verifSubKey(name, u)]
+		verifAssert(row != nil && row.DeletedAt == nil, "both-subscriptions-stored")
+		if row != nil {
+			verifAssert(row.ModeWant == p.modeWant && row.ModeGiven == p.modeGiven, "stored-modes-equal-live-modes")
+		}
+		peer := a
+		if u == a {
+			peer = b
+		}
+		verifAssert(t.original(u) == peer.UserId(), "p2p-topic-shows-each-participant-the-other")
+	}
+	verifReach("end")
+}
